@@ -646,8 +646,17 @@ class RigidMotion:
             kw2 = dict(kw, atom=[kw["atom"][i] for i in p], pos=pos[p].tolist())
             e1, _, _ = _energies(kw2, seed=seed)
         elif self.kind == "lattice_translation_single_atom":
-            n = rng.integers(-2, 3, (3, 3))
+            # in a ROTATED copy of the system (a strongly non-symmetric lattice matrix: a and its transpose differ), atoms moved by up to
+            # three lattice vectors
+            R = _rotation(rng)
+            a, pos = a @ R.T, pos @ R.T
+            kw = dict(kw, a=a.tolist(), pos=pos.tolist())
+            e0, at0, W0 = _energies(kw, seed=seed)
+            n = rng.integers(-3, 4, (3, 3))
+            n[0] = [3, -2, 0] if not n[0].any() else n[0]
             n[1:] = 0 if rng.integers(2) else n[1:]
+            if seed % 100 == 0:  # the first instance of every run: two atoms moved three cells apart in different directions
+                n = np.array([[3, -3, 2], [0, 0, 0], [-2, 3, 3]])
             kw2 = dict(kw, pos=(pos + n @ a).tolist())
             e1, _, _ = _energies(kw2, seed=seed)
         elif self.kind == "grid_translation":
